@@ -4,6 +4,7 @@ package worlds
 
 import (
 	"fmt"
+	"strings"
 	"testing"
 	"time"
 
@@ -143,8 +144,47 @@ func c03World(t *testing.T, r *simcore.Run) any {
 	if faulty && tp.Bool(1, 3, "k.mangle") {
 		mangle = uint64(tp.Range(20, 200, "mangle"))
 	}
+	// Preconditions of recorded findings, observed on the wire:
+	// F19: the listeners stamped two different requests of the client's address with one
+	// receive time (the store identifies an exchange by address and receive time only);
+	// F02: a reply to a request sent from an earlier socket reached a later socket that was
+	// given the same port.
+	rxOwner := map[ntp.Time64]uint64{}
+	rxReused := false
+	staleSeen := map[string]bool{}
+	w.net.OnRecv = func(c *simnet.UDPConn, d *simnet.Datagram) {
+		if c.Host() != w.cli || d.SrcConn == nil || d.SrcConn.Host() != w.srv {
+			return
+		}
+		c0 := w.delivered[d.Cause]
+		if c0 == nil {
+			return
+		}
+		o := w.sent[c0.ID]
+		if c0.OrigID != 0 {
+			o = w.sent[c0.OrigID]
+		}
+		if o != nil && o.SrcConn != c && o.Src == d.Dst {
+			staleSeen[simcore.Tag()] = true
+		}
+	}
+	w.panicSfx = func(tag, site string) string {
+		if staleSeen[tag] && strings.Contains(site, "ValidateResponseTimestamps") {
+			return "+stale-reply-on-reused-port"
+		}
+		return ""
+	}
 	w.net.OnSend = func(d *simnet.Datagram) {
 		prevOnSend(d)
+		if d.SrcConn != nil && d.SrcConn.Host() == w.srv {
+			if pk, ok := decodeNTP(d.Payload); ok {
+				if c, seen := rxOwner[pk.ReceiveTime]; seen && c != d.Cause {
+					rxReused = true
+					r.Probe("receive-timestamp-reused-for-client-address")
+				}
+				rxOwner[pk.ReceiveTime] = d.Cause
+			}
+		}
 		if mangle > 0 && d.SrcConn != nil && d.SrcConn.Host() == w.srv && len(d.Payload) >= 48 && tp.Bool(mangle, 1000, "f.mangle") {
 			// a reply whose leap/version/mode or stratum byte is damaged in flight: it still
 			// matches the request but (usually) fails validation; timestamps are untouched
@@ -284,6 +324,8 @@ func c03World(t *testing.T, r *simcore.Run) any {
 		sfx := ""
 		if e.p.SrcConn.LateTx > 0 {
 			sfx = "+listener-after-late-kernel-tx-stamp"
+		} else if rxReused && ilResp {
+			sfx = "+receive-timestamp-reused-for-client-address"
 		}
 		if T1x.Before(reqArr.Add(-eps)) || T1x.After(e.p.SentAt.Add(eps)) {
 			r.Fail("C03", "membership/t1"+sfx, "server receive timestamp was not taken between the request's arrival and the reply's departure; %s", desc)
